@@ -31,14 +31,24 @@ def run(ctx, prop):
                 ctx.violation("spec:argv round trip", "Parse(Argv(cfg)) # cfg inside the specification", {"tlc_output": law["out"]}, "tlc")
             else:
                 raise vlib.ToolError(f"TLC failed on Argv.tla: {law['errors'][:2]}")
+    # locally packaged buildpacks: every reference list of LocalPackaging.tla; the pinned tree's
+    # behaviour (no wipe) must violate NeverFails in the same model (negative control)
+    lp = vlib.tlc(ctx, "LocalPackaging.tla", "LocalPackaging.cfg" if quick else "LocalPackaging_t.cfg", "localpkg", workers=1, env=XSS, timeout=900)
+    vlib.tlc_must_pass(ctx, lp, "LocalPackaging model")
+    neg = vlib.tlc(ctx, "LocalPackaging.tla", "LocalPackaging_negative.cfg", "localpkg-negative", workers=1, env=XSS, timeout=900)
+    if not (neg["violated"] and "NeverFails" in neg["violated"]):
+        raise vlib.ToolError("vacuity guard: packaging twice without wiping does not violate NeverFails in the model")
+    ctx.add("states", lp["distinct"])
+    ctx.add("transitions", lp["generated"])
     wd = ctx.workdir("th")
     t16 = os.path.join(wd, "c16.ndjson")
     t17 = os.path.join(wd, "c17.ndjson")
-    env = {} if quick else {}
+    env = {"VERIF_LP": lp["out"], "VERIF_LOCAL": "48" if quick else "400"}
     s = vlib.harness(ctx, "th_replay", [mc["out"], t16, t17], env=env, timeout=7200)
     os.remove(mc["out"])
-    if s["evaluations"] < 1000:
-        raise vlib.ToolError("too few scenarios")
+    if s["evaluations"] < 1000 or s["extra"].get("local_buildpack_scenarios", 0) < 100:
+        raise vlib.ToolError(f"too few scenarios: {s['evaluations']} {s['extra']}")
+    ctx.cov["local_buildpack_scenarios"] = s["extra"]["local_buildpack_scenarios"]
     mine = [m for m in s["mismatches"] if m["signature"].startswith(prop + ":")]
     if len(mine) != len(s["mismatches"]):
         ctx.note(f"{len(s['mismatches']) - len(mine)} disagreement(s) belong to the other libcnb-test property")
